@@ -171,6 +171,129 @@ func c18Monitor(args []string) int {
 			}
 		}
 	}
+	// masks, rays, centre distance, neighbour tables, castling rights: geometric references
+	{
+		sqTo := VerifSqTo()
+		sqbb := VerifSqBb()
+		dirOrder := [][2]int{{0, 1}, {1, 0}, {0, -1}, {-1, 0}, {1, 1}, {1, -1}, {-1, -1}, {-1, 1}} // N,E,S,W,NE,SE,SW,NW
+		// Orientation order of Ray(): NW, N, NE, E, SE, S, SW, W
+		oriDelta := [][2]int{{-1, 1}, {0, 1}, {1, 1}, {1, 0}, {1, -1}, {0, -1}, {-1, -1}, {-1, 0}}
+		for sq := 0; sq < 64; sq++ {
+			f, r := sq&7, sq>>3
+			pred := func(p func(ff, rr int) bool) uint64 {
+				var b uint64
+				for s := 0; s < 64; s++ {
+					if p(s&7, s>>3) {
+						b |= 1 << uint(s)
+					}
+				}
+				return b
+			}
+			chk := func(name string, got, want uint64) {
+				rep.Cases++
+				if got != want {
+					rep.Violate("table-"+name, map[string]interface{}{"square": Square(sq).String()}, fmt.Sprintf("got 0x%016x want 0x%016x", got, want))
+				}
+			}
+			S := Square(sq)
+			chk("sqbb", uint64(sqbb[sq]), 1<<uint(sq))
+			chk("files-west", uint64(S.FilesWestMask()), pred(func(ff, rr int) bool { return ff < f }))
+			chk("files-east", uint64(S.FilesEastMask()), pred(func(ff, rr int) bool { return ff > f }))
+			chk("file-west", uint64(S.FileWestMask()), pred(func(ff, rr int) bool { return ff == f-1 }))
+			chk("file-east", uint64(S.FileEastMask()), pred(func(ff, rr int) bool { return ff == f+1 }))
+			chk("ranks-north", uint64(S.RanksNorthMask()), pred(func(ff, rr int) bool { return rr > r }))
+			chk("ranks-south", uint64(S.RanksSouthMask()), pred(func(ff, rr int) bool { return rr < r }))
+			chk("neighbour-files", uint64(S.NeighbourFilesMask()), pred(func(ff, rr int) bool { return ff == f-1 || ff == f+1 }))
+			chk("passed-pawn-white", uint64(S.PassedPawnMask(White)), pred(func(ff, rr int) bool { return rr > r && ff >= f-1 && ff <= f+1 }))
+			chk("passed-pawn-black", uint64(S.PassedPawnMask(Black)), pred(func(ff, rr int) bool { return rr < r && ff >= f-1 && ff <= f+1 }))
+			chk("pseudo-rook", uint64(GetPseudoAttacks(Rook, S)), refSlide(refRookDirs, sq, 0))
+			chk("pseudo-bishop", uint64(GetPseudoAttacks(Bishop, S)), refSlide(refBishopDirs, sq, 0))
+			chk("pseudo-queen", uint64(GetPseudoAttacks(Queen, S)), refSlide(refRookDirs, sq, 0)|refSlide(refBishopDirs, sq, 0))
+			for o := 0; o < 8; o++ {
+				var want uint64
+				s := sq
+				for {
+					s = refStep(s, oriDelta[o][0], oriDelta[o][1])
+					if s < 0 {
+						break
+					}
+					want |= 1 << uint(s)
+				}
+				chk("ray-"+Orientation(o).String(), uint64(S.Ray(Orientation(o))), want)
+			}
+			for d := 0; d < 8; d++ {
+				want := refStep(sq, dirOrder[d][0], dirOrder[d][1])
+				if want < 0 {
+					want = 64
+				}
+				rep.Cases++
+				if int(sqTo[sq][d]) != want {
+					rep.Violate("table-sq-to", map[string]interface{}{"square": S.String(), "direction_index": d}, fmt.Sprintf("got %d want %d", int(sqTo[sq][d]), want))
+				}
+			}
+			// centre distance: king-move distance to the nearest of d4,e4,d5,e5
+			cdist := 8
+			for _, c := range []int{27, 28, 35, 36} {
+				df, dr := f-c&7, r-c>>3
+				if df < 0 {
+					df = -df
+				}
+				if dr < 0 {
+					dr = -dr
+				}
+				if dr > df {
+					df = dr
+				}
+				if df < cdist {
+					cdist = df
+				}
+			}
+			rep.Cases++
+			if got := S.CenterDistance(); got != cdist {
+				rep.Violate("table-center-distance", map[string]interface{}{"square": S.String()}, fmt.Sprintf("got %d want %d", got, cdist))
+			}
+			// castling rights lost when a piece moves from/to the square
+			var cr CastlingRights
+			switch sq {
+			case 4:
+				cr = CastlingWhite
+			case 0:
+				cr = CastlingWhiteOOO
+			case 7:
+				cr = CastlingWhiteOO
+			case 60:
+				cr = CastlingBlack
+			case 56:
+				cr = CastlingBlackOOO
+			case 63:
+				cr = CastlingBlackOO
+			}
+			rep.Cases++
+			if got := GetCastlingRights(S); got != cr {
+				rep.Violate("table-castling-rights", map[string]interface{}{"square": S.String()}, fmt.Sprintf("got %d want %d", int(got), int(cr)))
+			}
+		}
+		cm := func(name string, got Bitboard, want uint64) {
+			rep.Cases++
+			if uint64(got) != want {
+				rep.Violate("table-"+name, map[string]interface{}{"mask": name}, fmt.Sprintf("got 0x%016x want 0x%016x", uint64(got), want))
+			}
+		}
+		cm("castle-mask-white-kingside", KingSideCastleMask(White), 1<<5|1<<6|1<<7)
+		cm("castle-mask-black-kingside", KingSideCastleMask(Black), 1<<61|1<<62|1<<63)
+		cm("castle-mask-white-queenside", QueenSideCastMask(White), 1<<0|1<<1|1<<2|1<<3)
+		cm("castle-mask-black-queenside", QueenSideCastMask(Black), 1<<56|1<<57|1<<58|1<<59)
+		var light, dark uint64
+		for s := 0; s < 64; s++ {
+			if (s&7+s>>3)%2 == 1 {
+				light |= 1 << uint(s)
+			} else {
+				dark |= 1 << uint(s)
+			}
+		}
+		cm("squares-white", SquaresBb(White), light)
+		cm("squares-black", SquaresBb(Black), dark)
+	}
 	// shifts on random boards
 	for i := 0; i < 20000; i++ {
 		b := rng.U64()
